@@ -67,8 +67,8 @@ pub fn spec(prop: &str, tier: Tier) -> Option<PropSpec> {
             id: "C01",
             level: "exploration",
             batches: vec![
-                Batch { engine: "e1", profile: "debug", runs: if q { 120_000 } else { 6_000_000 } },
-                Batch { engine: "e1", profile: "release", runs: if q { 240_000 } else { 24_000_000 } },
+                Batch { engine: "e1", profile: "debug", runs: if q { 400_000 } else { 8_000_000 } },
+                Batch { engine: "e1", profile: "release", runs: if q { 800_000 } else { 30_000_000 } },
             ],
             exhaustive: false,
             rule: RULE_E1,
@@ -77,8 +77,8 @@ pub fn spec(prop: &str, tier: Tier) -> Option<PropSpec> {
             id: "C04",
             level: "exploration",
             batches: vec![
-                Batch { engine: "e1", profile: "debug", runs: if q { 60_000 } else { 2_000_000 } },
-                Batch { engine: "e1", profile: "release", runs: if q { 140_000 } else { 10_000_000 } },
+                Batch { engine: "e1", profile: "debug", runs: if q { 150_000 } else { 3_000_000 } },
+                Batch { engine: "e1", profile: "release", runs: if q { 350_000 } else { 12_000_000 } },
             ],
             exhaustive: false,
             rule: RULE_E1,
@@ -87,8 +87,8 @@ pub fn spec(prop: &str, tier: Tier) -> Option<PropSpec> {
             id: "C08",
             level: "exploration",
             batches: vec![
-                Batch { engine: "e1", profile: "debug", runs: if q { 60_000 } else { 2_000_000 } },
-                Batch { engine: "e1", profile: "release", runs: if q { 140_000 } else { 10_000_000 } },
+                Batch { engine: "e1", profile: "debug", runs: if q { 150_000 } else { 3_000_000 } },
+                Batch { engine: "e1", profile: "release", runs: if q { 350_000 } else { 12_000_000 } },
             ],
             exhaustive: false,
             rule: RULE_E1,
@@ -97,8 +97,8 @@ pub fn spec(prop: &str, tier: Tier) -> Option<PropSpec> {
             id: "C06",
             level: "fault_enumeration",
             batches: vec![
-                Batch { engine: "e4", profile: "debug", runs: if q { 6_000 } else { 200_000 } },
-                Batch { engine: "e4", profile: "release", runs: if q { 30_000 } else { 2_000_000 } },
+                Batch { engine: "e4", profile: "debug", runs: if q { 15_000 } else { 300_000 } },
+                Batch { engine: "e4", profile: "release", runs: if q { 80_000 } else { 3_000_000 } },
             ],
             exhaustive: false,
             rule: "one evaluation = one generated CIE/FDE program evaluated on unbounded storage and on the whole capacity ladder rows {1,2,3,4,5} x rules {1,2,4,191,192,193} (array and boxed storages), i.e. 31 executions of the real unwind code; the ladder is enumerated exhaustively per program, programs are seeded; non-trivial = the FDE parsed AND every ladder comparison ran to its end; distinct = distinct event-stream digests",
@@ -127,8 +127,8 @@ pub fn spec(prop: &str, tier: Tier) -> Option<PropSpec> {
             id: "C20",
             level: "exploration",
             batches: vec![
-                Batch { engine: "e6", profile: "debug", runs: e6::uctx_exhaustive(tier).0 + if q { 60_000 } else { 3_000_000 } },
-                Batch { engine: "e6", profile: "release", runs: e6::uctx_exhaustive(tier).0 + if q { 140_000 } else { 12_000_000 } },
+                Batch { engine: "e6", profile: "debug", runs: e6::uctx_exhaustive(tier).0 + if q { 150_000 } else { 3_000_000 } },
+                Batch { engine: "e6", profile: "release", runs: e6::uctx_exhaustive(tier).0 + if q { 350_000 } else { 12_000_000 } },
             ],
             exhaustive: false,
             rule: "one evaluation = one history executed on long-lived state with every step mirrored on fresh state under the same step-relative fault plan; the first block enumerates exhaustively all fault-free UnwindContext histories up to length 2 (quick) / 3 (thorough) over a fixed 16-FDE x 5-step-kind alphabet, the rest are seeded random histories over six families (unwind context, entry buffer, tree re-root, clones, sequence resume, abbreviation cache); non-trivial = the reusable object was exercised (>=1 item) AND (a step failed by an injected fault OR the history ran to its end); distinct = distinct event-stream digests",
